@@ -7,7 +7,7 @@ from common import COQ, build_driver, coq_make, regen_all, sh
 DRIVERS = [
     ("gcdriver", "ExtractGc", ["gcmodel"], ["Model/GcLang.vo", "Gen/GcGuard.vo"]),
     ("bvdriver", "ExtractBv", ["bvmodel"], ["Model/Build.vo", "Model/PyPrelude.vo", "Model/Ast.vo", "Model/Rewrite.vo", "Model/Solve.vo", "Model/Frontend.vo", "Model/Numeral.vo", "Model/Annot.vo", "Model/HashCons.vo", "Model/Pickle.vo", "Model/Z3Stack.vo", "Model/Str.vo", "Model/Tls.vo", "Model/AbsInt.vo", "Model/Balance.vo", "Model/Replace.vo", "Model/Track.vo", "Model/CompCache.vo", "Gen/BvConcrete.vo"]),
-    ("sidriver", "ExtractSi", ["simodel"], ["Model/SI.vo", "Model/PyPrelude.vo", "Gen/SIHelpers.vo", "Model/Lift.vo", "Proofs/LiftSI.vo", "Proofs/SIZext.vo", "Model/SIUnion.vo", "Model/SICmp.vo"]),
+    ("sidriver", "ExtractSi", ["simodel"], ["Model/SI.vo", "Model/PyPrelude.vo", "Gen/SIHelpers.vo", "Model/Lift.vo", "Proofs/LiftSI.vo", "Proofs/SIZext.vo", "Model/SIUnion.vo", "Model/SICmp.vo", "Model/SIQuery.vo", "Model/SINot.vo", "Model/SIZextM.vo"]),
 ]
 
 
